@@ -206,6 +206,38 @@ class C08(Property):
     def strategy(self, tier):
         return specs(tier)
 
+    # heterogeneous collections that share one data layout (the two 3-D perturbed classes with equal mode counts) and mixed mode
+    # counts, for every kind of collection and both orders: a fixed sweep (random draws reach these combinations unevenly)
+    def exhaustive_jobs(self, tier):
+        return [{"domain": "layout-twins", "kind": k} for k in ("Emulsion", "EmulsionTimeCourse", "DropletTrack", "DropletTrackList")]
+
+    def expand(self, job):
+        kind = job["kind"]
+
+        def dr(cls, z, r, amps, onaxis=True):
+            return {"cls": cls, "position": [0.0 if onaxis else 1.5, 0.0, z], "radius": r, "interface_width": 0.5, "amplitudes": amps}
+
+        for modes in (1, 3):
+            a1, a2 = [0.1] * modes, [-0.05] * modes
+            mixes = [
+                [dr("PerturbedDroplet3D", 1.0, 2.0, a1), dr("PerturbedDroplet3DAxisSym", 4.0, 1.0, a2)],
+                [dr("PerturbedDroplet3DAxisSym", 1.0, 2.0, a1), dr("PerturbedDroplet3D", 4.0, 1.0, a2, onaxis=False)],
+                [dr("PerturbedDroplet3D", 1.0, 2.0, a1, onaxis=False), dr("PerturbedDroplet3D", 2.0, 1.5, a2), dr("PerturbedDroplet3DAxisSym", 4.0, 1.0, a2)],
+                [dr("PerturbedDroplet3D", 1.0, 2.0, a1), dr("PerturbedDroplet3D", 4.0, 1.0, a2 + [0.02])],  # same class, other mode count
+            ]
+            for mix in mixes:
+                for build in ("ctor", "append"):
+                    spec = {"kind": kind, "dim": 3, "cls": mix[0]["cls"], "hetero": True, "build": build, "info": None}
+                    if kind == "Emulsion":
+                        spec["members"] = [mix]
+                    elif kind == "DropletTrack":
+                        spec["members"], spec["times"] = [mix], [[0.5 * k for k in range(len(mix))]]
+                    elif kind == "EmulsionTimeCourse":
+                        spec["members"], spec["times"], spec["member_hetero"] = [[mix[0]], mix, []], [0.0, 1.0, 2.5], True
+                    else:
+                        spec["members"], spec["times"] = [[mix[0]], mix], [[0.0], [0.5 * k for k in range(len(mix))]]
+                    yield spec
+
     _dir = None
 
     def _path(self):
